@@ -103,7 +103,10 @@ def operand(ctx, fi):
          'key update is not (key + amount) %% 12: %s' % [norm_text(s) for s in ks], construct='ks.key = (ks.key + amount) % 12')
   kl = U.enclosing_loops(fn, ks[0]) if ks else ()
   ok = len(kl) == 1 and norm_text(kl[0].iter).endswith('.key_signatures') and not U.enclosing_tests(fn, ks[0]) if ks else False
-  ctx.ob('OPERAND/key-all', fi, ks[0] if ks else fn, ok, 'every key signature is updated, unconditionally' if ok else 'not every key signature is updated',
+  conditional = bool(ks) and len(kl) == 1 and norm_text(kl[0].iter).endswith('.key_signatures') and bool(U.enclosing_tests(fn, ks[0])) and \
+      not any(isinstance(n, ast.Name) and n.id == 'amount' for t, _p in U.enclosing_tests(fn, ks[0]) for n in ast.walk(t))   # `if amount % 12:` would be harmless
+  ctx.ob('OPERAND/key-all', fi, ks[0] if ks else fn, ok, 'every key signature is updated, unconditionally' if ok else
+         ('the key signature update is conditional (%s)' % ', '.join(norm_text(t) for t, _p in U.enclosing_tests(fn, ks[0])) if conditional else 'not every key signature is updated'), definite=conditional,
          construct='for ks in key_signatures: unconditional update')
   # chords
   cc = [c for c in U.calls_in(fn) if (dotted(c.func) or '').endswith('transpose_chord_symbol')]
